@@ -831,6 +831,18 @@ impl World {
                 if new_dump.len() != items.len() {
                     return Err(fail("C17", "restore_extra_entry", op, format!("restored cache has {} entries, snapshot had {}", new_dump.len(), items.len())));
                 }
+                // idle lifetime: the snapshot does not carry the age of the last access; a restored entry whose idle clock
+                // starts later than the original's has a longer remaining idle lifetime than the original had
+                if let Some(tti) = self.tti() {
+                    let old_la: BTreeMap<K, u64> = hook::dump(&self.cache).into_iter().map(|(k, _, _, _, la)| (k, la)).collect();
+                    for (k, _, _, _, la) in hook::dump(&restored) {
+                        if let Some(ola) = old_la.get(&k) {
+                            if la > *ola {
+                                return Err(fail("C17", "restore_idle_lifetime_longer", op, format!("key {}: the restored entry's idle timeout ({} ns) counts from {} ns, the original's from {} ns: its remaining idle lifetime grew by {} ns", k, tti, la, ola, la - ola)));
+                            }
+                        }
+                    }
+                }
                 let cc = hook::current_cost_raw(&restored);
                 let sum: u64 = new_dump.values().map(|x| x.1).sum();
                 if cc != sum {
@@ -1034,7 +1046,7 @@ fn alphabet(cfg: &Cfg) -> Vec<Act> {
         "ttl" => vec![Act::Insert(0, 1), Act::InsertTtl(0, 1, 5 * SEC), Act::Insert(1, 1), Act::Fetch(0), Act::Get(0), Act::Peek(0), Act::EntryGet(0), Act::Iter(1), Act::Maint, Act::Adv(4 * SEC), Act::Adv(SEC - 1), Act::Adv(1), Act::Adv(5 * SEC)],
         "ttlshort" => vec![Act::Insert(0, 1), Act::InsertTtl(1, 1, SEC), Act::Fetch(0), Act::Peek(1), Act::Maint, Act::Adv(SEC), Act::Adv(SEC - 1), Act::Adv(1), Act::Remove(0)],
         "swr" => vec![Act::Insert(0, 1), Act::FetchWith(0), Act::Fetch(0), Act::Remove(0), Act::Maint, Act::Adv(9 * SEC), Act::Adv(SEC - 1), Act::Adv(1), Act::Adv(5 * SEC)],
-        "tti" => vec![Act::Insert(0, 1), Act::Insert(1, 1), Act::Fetch(0), Act::Get(0), Act::Peek(0), Act::EntryGet(0), Act::IterSnapshot, Act::Maint, Act::Adv(5 * SEC), Act::Adv(5 * SEC - 1), Act::Adv(1)],
+        "tti" => vec![Act::Insert(0, 1), Act::Insert(1, 1), Act::Fetch(0), Act::Get(0), Act::Peek(0), Act::EntryGet(0), Act::IterSnapshot, Act::SnapshotRestore, Act::Maint, Act::Adv(5 * SEC), Act::Adv(5 * SEC - 1), Act::Adv(1)],
         "read" => vec![Act::Insert(0, 1), Act::Insert(1, 1), Act::Remove(0), Act::Invalidate(1), Act::Clear, Act::Get(0), Act::Fetch(1), Act::Peek(0), Act::EntryGet(0), Act::EntryOrInsert(0, 1), Act::Compute(0), Act::Iter(2), Act::Maint],
         "iter" => vec![Act::Insert(0, 1), Act::Insert(1, 1), Act::Insert(2, 1), Act::Insert(3, 1), Act::Insert(4, 1), Act::Remove(1), Act::Iter(1), Act::Iter(2), Act::Iter(3), Act::IterSnapshot, Act::SnapshotRestore, Act::Adv(6 * SEC), Act::InsertTtl(2, 1, 5 * SEC)],
         "bulk" => vec![Act::MultiInsert(2), Act::MultiInsert(3), Act::Insert(1, 2), Act::MultiGet(3), Act::MultiRemove(2), Act::MultiInvalidate(3), Act::Remove(2), Act::Maint, Act::Peek(1), Act::Adv(10 * SEC)],
